@@ -366,8 +366,13 @@ fn gen_delegation_method<'s>(
     let core = &generic_idents.crate_idents.core;
     // `&Impl<T>` -> `&T`. Fully qualified: a method named `as_ref` / `borrow` of some
     // other trait in scope at the invocation must not be a candidate.
+    // `self` only names the receiver in the hygiene context of the receiver:
+    let self_token = match fn_sig.inputs.first() {
+        Some(syn::FnArg::Receiver(receiver)) => receiver.self_token,
+        _ => syn::token::SelfValue::default(),
+    };
     let inner = quote! {
-        <Self as ::#core::convert::AsRef<#impl_t>>::as_ref(self)
+        <Self as ::#core::convert::AsRef<#impl_t>>::as_ref(#self_token)
     };
 
     match (&attr.impl_trait, &attr.delegation_kind) {
@@ -377,7 +382,7 @@ fn gen_delegation_method<'s>(
                 sig: fn_sig.clone(),
                 call: quote! {
                     // TODO: pass additional generic arguments(?)
-                    <#impl_t::Target as #impl_trait_ident<#impl_t>>::#fn_ident(self, #(#arguments),*)
+                    <#impl_t::Target as #impl_trait_ident<#impl_t>>::#fn_ident(#self_token, #(#arguments),*)
                 },
             }
         }
@@ -393,14 +398,14 @@ fn gen_delegation_method<'s>(
             let call = match ref_delegate {
                 RefDelegate::AsRef => {
                     quote! {
-                        <#impl_t as ::#core::convert::AsRef<dyn #impl_trait_ident<#impl_t> #plus_sync>>::as_ref(&*self)
-                            .#fn_ident(self, #(#arguments),*)
+                        <#impl_t as ::#core::convert::AsRef<dyn #impl_trait_ident<#impl_t> #plus_sync>>::as_ref(&*#self_token)
+                            .#fn_ident(#self_token, #(#arguments),*)
                     }
                 }
                 RefDelegate::Borrow => {
                     quote! {
-                        <#impl_t as ::#core::borrow::Borrow<dyn #impl_trait_ident<#impl_t> #plus_sync>>::borrow(&*self)
-                            .#fn_ident(self, #(#arguments),*)
+                        <#impl_t as ::#core::borrow::Borrow<dyn #impl_trait_ident<#impl_t> #plus_sync>>::borrow(&*#self_token)
+                            .#fn_ident(#self_token, #(#arguments),*)
                     }
                 }
             };
@@ -442,7 +447,7 @@ fn gen_delegation_method<'s>(
                 call: if takes_self_by_value {
                     // a `self` method consumes the inner value as well
                     quote! {
-                        self.into_inner().#fn_ident(#(#arguments),*)
+                        #self_token.into_inner().#fn_ident(#(#arguments),*)
                     }
                 } else {
                     quote! {
